@@ -303,6 +303,134 @@ def check_weights(rep, prog):
            what='(1 - sum ppos) + sum ppos == 1, pairs read as (ppos, gammapos)')
 
 
+def exterior_terms(prog, symmetric):
+    """Cache2D.integrate(exterior_int=True) executed abstractly for a symmetric / asymmetric pdf: the edge terms
+    {(i1, i2) with 'full' for the integrated axis: (which selection coefficient the weight integrates over, 'low' | 'high')} and the
+    corner terms {(i1, i2): (range of gamma1, range of gamma2)}; None where a weight is not recognised"""
+    from sa import miniexec as mx
+    from sa import alpha
+    m = prog.mod(C2)
+    fn = prog.func(C2, 'Cache2D.integrate')
+    known = alpha.load_table().get('__params__', {}).get(m.rel)
+    known = set(known) if known is not None else None
+
+    def hook(nm, args, kw):
+        if nm in ('np.allclose', 'numpy.allclose'):
+            return symmetric
+        return NotImplemented
+    it = mx.Interp(prog, m, call_hook=hook, known_functions=known, symbolic_loops=True)
+    out = {'edges': {}, 'corners': {}, 'errors': []}
+    try:
+        paths = it.run(fn, {'self': mx.Sym('self', truth=True), 'params': mx.Sym('params'), 'ns': mx.Sym('ns'), 'sel_dist': mx.Sym('sel_dist', truth=True), 'theta': mx.Sym('theta'),
+                            'pts': mx.Sym('pts'), 'exterior_int': True})
+    except mx.Undecidable as e:
+        raise AnalysisError('Cache2D.integrate is not recognised: %s' % e)
+    if len(paths) != 1 or paths[0][0][0] != 'return':
+        raise AnalysisError('Cache2D.integrate is not recognised: %d paths' % len(paths))
+    outcome, events, dec = paths[0]
+    a = mx.call_of(outcome[1], 'Spectrum')
+    if not a or not a[0]:
+        raise AnalysisError('Cache2D.integrate does not return a Spectrum')
+    prod = mx.factors(a[0][0], '*')
+    total = [f for f in prod if not (isinstance(f, mx.Sym) and f.text == 'theta')]
+    if len(total) != 1 or len(prod) != 2:
+        out['errors'].append('the result is not theta times the quadrature')
+        return out
+    terms = mx.factors(total[0], '+')
+
+    def rng_of(lo, hi):
+        lo_t, hi_t = mx.show(lo).replace(' ', ''), mx.show(hi).replace(' ', '')
+        if lo_t == '(-self.neg_gammas[0])' and hi_t in ('np.inf', 'numpy.inf', 'inf'):
+            return 'low'
+        if lo_t == '0' and hi_t == '(-self.neg_gammas[-1])':
+            return 'high'
+        return None
+
+    def component0(v):
+        # W, err = quad(...)  ->  W is component 0 of the call
+        if isinstance(v, mx.Sym) and v.struct and v.struct[0] == 'index' and v.struct[2] == 0:
+            return v.struct[1]
+        return None
+
+    def fill_of(vec):
+        # the per-gamma entry of a weight vector: array([w]) built from a list appended to in the loop, or stores vec[ii] = w
+        c = mx.call_of(vec, 'array') or mx.call_of(vec, 'asarray')
+        if c and c[0] and isinstance(c[0][0], list) and len(c[0][0]) == 1:
+            return c[0][0][0]
+        st = [e for e in events if e[0] == 'setitem' and len(e) > 4 and e[4] is vec]
+        if len(st) == 1 and isinstance(st[0][2], mx.Sym):
+            return st[0][3]
+        return None
+
+    def quad_class(w):
+        q = component0(w)
+        c = mx.call_of(q, 'quad') if q is not None else None
+        if not c or len(c[0]) < 3:
+            return None
+        f, lo, hi = c[0][:3]
+        rng = rng_of(lo, hi)
+        if rng is None:
+            return None
+        if isinstance(f, mx.Sym) and f.text == 'sel_dist':
+            extra = c[1].get('args')
+            if isinstance(extra, tuple) and len(extra) == 2 and mx.show(extra[0]) == 'gamma' and 'params' in mx.show(extra[1]):
+                return (1, rng)          # integrates the first argument, the second is the grid value
+            return None
+        if isinstance(f, mx.FuncRef) and f.node is not None and len(f.node.args.args) == 1 and 'args' not in c[1]:
+            body = f.node.body[0].value if isinstance(f.node.body[0], ast.Return) else None
+            v = f.node.args.args[0].arg
+            if isinstance(body, ast.Call) and ast.unparse(body.func) == 'sel_dist' and [ast.unparse(x) for x in body.args] == ['gamma', v, 'params']:
+                return (2, rng)
+            if isinstance(body, ast.Call) and ast.unparse(body.func) == 'sel_dist' and [ast.unparse(x) for x in body.args] == [v, 'gamma', 'params']:
+                return (1, rng)
+        return None
+
+    def dbl_class(w):
+        q = component0(w)
+        c = mx.call_of(q, 'dblquad') if q is not None else None
+        if not c or len(c[0]) < 5:
+            return None
+        f, a_, b_, g_, h_ = c[0][:5]
+        if not (isinstance(f, mx.Sym) and f.text == 'sel_dist'):
+            return None
+        try:
+            glo = it.apply(g_, [mx.Sym('x')], {}) if isinstance(g_, mx.FuncRef) else g_
+            ghi = it.apply(h_, [mx.Sym('x')], {}) if isinstance(h_, mx.FuncRef) else h_
+        except (mx.Undecidable, mx.Raised):
+            return None
+        # dblquad(func, a, b, gfun, hfun) integrates func(y, x): x in [a, b] is the SECOND argument (gamma2), y in [g, h] the first
+        r2, r1 = rng_of(a_, b_), rng_of(glo, ghi)
+        if r1 is None or r2 is None:
+            return None
+        return (r1, r2)
+    it.path = mx.Path([])
+    for t in terms[1:]:
+        c = mx.call_of(t, 'trapz') or mx.call_of(t, 'trapezoid')
+        if c:
+            fac = mx.factors(c[0][0], '*') if c[0] else []
+            sp = [f for f in fac if isinstance(f, mx.Sym) and f.struct and f.struct[0] == 'index' and mx.show(f.struct[1]).startswith('self.spectra[')]
+            ws = [f for f in fac if f not in sp]
+            if len(sp) != 1 or len(ws) != 1 or mx.show(c[0][1]) != 'self.neg_gammas' or mx.show(c[1].get('axis', c[0][2] if len(c[0]) > 2 else None)) != '0':
+                out['errors'].append('edge term %s' % mx.show(t)[:80])
+                continue
+            key = sp[0].struct[2] if isinstance(sp[0].struct[2], tuple) else (sp[0].struct[2],)
+            key = tuple('full' if mx.is_full_slice(k) else k for k in key)
+            w = ws[0]
+            vec = w.struct[1] if isinstance(w, mx.Sym) and w.struct and w.struct[0] == 'index' else None
+            aligned = vec is not None and isinstance(w.struct[2], tuple) and len(w.struct[2]) == 3 and mx.is_full_slice(w.struct[2][0]) and all(mx.is_newaxis(x) for x in w.struct[2][1:])
+            fill = fill_of(vec) if aligned else None
+            out['edges'][key] = quad_class(fill) if fill is not None else None
+            continue
+        fac = mx.factors(t, '*')
+        sp = [f for f in fac if isinstance(f, mx.Sym) and f.struct and f.struct[0] == 'index' and mx.show(f.struct[1]).startswith('self.spectra[')]
+        ws = [f for f in fac if f not in sp]
+        if len(sp) == 1 and len(ws) == 1 and isinstance(sp[0].struct[2], tuple) and all(isinstance(k, int) for k in sp[0].struct[2]):
+            out['corners'][tuple(sp[0].struct[2])] = dbl_class(ws[0])
+        else:
+            out['errors'].append('term %s' % mx.show(t)[:80])
+    return out
+
+
 def check_quadrature(rep, prog):
     m1, m2 = prog.mod(C1), prog.mod(C2)
     f1 = prog.func(C1, 'Cache1D.integrate')
@@ -329,95 +457,49 @@ def check_quadrature(rep, prog):
     okb = all(x in t for x in ('spectra = self.spectra[:Nneg, :Nneg]', 'weights = sel_dist(-self.neg_gammas, -self.neg_gammas, params)', 'weighted_spectra[ii, jj] = w * spectra[ii, jj]',
                                'temp = np.trapz(weighted_spectra, self.neg_gammas, axis=0)', 'fs = np.trapz(temp, self.neg_gammas, axis=0)', 'max_gamma = -self.neg_gammas[-1]', 'min_gamma = -self.neg_gammas[0]'))
     rep.ob('R-TPL', 'Cache2D.integrate body', okb, 'double trapezoid over the negative grid; min_gamma/max_gamma are the largest/smallest magnitudes', m2.rel, f2.lineno, what='2-D quadrature over the cached grid')
-    # edge weights
-    lp = [n for n in f2.body if isinstance(n, ast.For) and 'gamma' in ast.unparse(n.target)]
-    oke = False
-    det = 'edge-weight loop not found'
-    if lp:
-        loop = lp[0]
-        gv = loop.target.elts[1].id
-        quads = {}
-        for n in ast.walk(loop):
-            if isinstance(n, ast.Assign) and isinstance(n.value, ast.Call) and _last(dotted(n.value.func)) == 'quad' and isinstance(n.targets[0], ast.Tuple):
-                quads[n.targets[0].elts[0].id] = n.value
-        rng = {'low': ['min_gamma', 'np.inf'], 'high': ['0', 'max_gamma']}
-        oke = True
-        det = []
-        for nm, c in quads.items():
-            which = 'low' if nm.endswith('low') else 'high'
-            axis = nm[2]
-            bounds = [ast.unparse(a) for a in c.args[1:3]]
-            f_arg = c.args[0]
-            kw = {k.arg: ast.unparse(k.value) for k in c.keywords}
-            if axis == '1':
-                ok_ = ast.unparse(f_arg) == 'sel_dist' and kw.get('args') == '(%s, params)' % gv and bounds == rng[which]
-            else:
-                lam = None
-                if isinstance(f_arg, ast.Name):
-                    lam = next((x.value for x in ast.walk(loop) if isinstance(x, ast.Assign) and ast.unparse(x.targets[0]) == f_arg.id and isinstance(x.value, ast.Lambda)), None)
-                ok_ = lam is not None and len(lam.args.args) == 1 and ast.unparse(lam.body) == 'sel_dist(%s, %s, params)' % (gv, lam.args.args[0].arg) and bounds == rng[which] and 'args' not in kw
-            det.append('%s: %s' % (nm, ok_))
-            oke = oke and ok_
-        oke = oke and set(quads) == {'w_1low', 'w_1high', 'w_2low', 'w_2high'}
-        sym = [n for n in ast.walk(loop) if isinstance(n, ast.If) and ast.unparse(n.test) == 'symmetric_dfe']
-        oke = oke and bool(sym) and ast.unparse(sym[0].body[0]) in ('w_2low, w_2high = (w_1low, w_1high)', '(w_2low, w_2high) = (w_1low, w_1high)')
-        st = {ast.unparse(n.targets[0]): ast.unparse(n.value) for n in loop.body if isinstance(n, ast.Assign) and isinstance(n.targets[0], ast.Subscript)}
-        oke = oke and st == {'weights_1low[ii]': 'w_1low', 'weights_2low[ii]': 'w_2low', 'weights_1high[ii]': 'w_1high', 'weights_2high[ii]': 'w_2high'}
-        det = '; '.join(det)
-    rep.ob('R-TPL', 'Cache2D.integrate edge weights', oke, det, m2.rel, lp[0].lineno if lp else f2.lineno,
-           what='w_1*: integral over gamma1 (first argument) at fixed gamma2; w_2*: integral over gamma2 (second argument) at fixed gamma1; low = [min_gamma, inf), high = [0, max_gamma]')
-    edges = [n for n in f2.body if isinstance(n, ast.AugAssign) and isinstance(n.value, ast.Call) and _last(dotted(n.value.func)) in ('trapz', 'trapezoid')]
-    want = {('spectra[:, 0]', 'weights_2low'), ('spectra[:, -1]', 'weights_2high'), ('spectra[0, :]', 'weights_1low'), ('spectra[-1, :]', 'weights_1high')}
-    got = set()
-    for n in edges:
-        a0 = n.value.args[0]
-        if isinstance(a0, ast.BinOp) and isinstance(a0.op, ast.Mult):
-            got.add((ast.unparse(a0.left), ast.unparse(a0.right).split('[')[0]))
-    rep.ob('R-TPL', 'Cache2D.integrate edge terms', got == want, 'edge terms %s' % sorted(got), m2.rel, edges[0].lineno if edges else f2.lineno,
-           what='slice with gamma2 most deleterious (index 0) pairs with the gamma2 weight over [min_gamma, inf) etc. for all four edges')
-    # corners
-    corners = {}
-    sym_prev = {}
-    last_w = None
-    for n in f2.body:
-        stmts = [n] if not isinstance(n, ast.If) else n.body
-        before_if = last_w
-        for s_ in stmts:
-            if isinstance(s_, ast.Assign) and isinstance(s_.value, ast.Call) and _last(dotted(s_.value.func)) == 'dblquad':
-                c = s_.value
-                xr = [ast.unparse(a) for a in c.args[1:3]]
-                yr = [ast.unparse(a.body) if isinstance(a, ast.Lambda) else ast.unparse(a) for a in c.args[3:5]]
-                last_w = (xr, yr, isinstance(n, ast.If) and ast.unparse(n.test), before_if if isinstance(n, ast.If) else None)
-        if isinstance(n, ast.AugAssign) and isinstance(n.value, ast.BinOp) and ast.unparse(n.value.right) == 'weight' and ast.unparse(n.value.left).startswith('spectra['):
-            corners[ast.unparse(n.value.left)] = last_w
-    rngname = {"['0', 'max_gamma']": '-1', "['min_gamma', 'np.inf']": '0'}
-    okc = True
-    det = []
-    for sl, w in sorted(corners.items()):
-        mm = re.fullmatch(r'spectra\[(-?\d), (-?\d)\]', sl)
-        i1, i2 = mm.group(1), mm.group(2)
-        xr, yr, cond, prev = w
-        # dblquad(func, a, b, gfun, hfun) integrates func(y, x): x in [a, b] is the SECOND argument (gamma2), y the first (gamma1)
-        e2, e1 = rngname.get(str(xr)), rngname.get(str(yr))
-        mirrored = cond == 'not symmetric_dfe'
-        ok_ = (e1 == i1 and e2 == i2) or (mirrored and False)
-        if cond == 'not symmetric_dfe':
-            ok_ = e1 == i1 and e2 == i2
-            # symmetric pdfs skip the quadrature and reuse the weight that is in scope: it must be the mass of the MIRRORED
-            # quadrant (gamma1 and gamma2 ranges exchanged), which is equal by symmetry
-            if prev is None:
-                ok_ = False
-                det.append('%s: no weight in scope for symmetric pdfs' % sl)
-            else:
-                p2, p1 = rngname.get(str(prev[0])), rngname.get(str(prev[1]))
-                okm_ = (p1 == i2 and p2 == i1)
-                ok_ = ok_ and okm_
-                if not okm_:
-                    det.append('%s: for symmetric pdfs the reused weight is the mass of gamma1 in %s, gamma2 in %s, not of the mirrored quadrant' % (sl, prev[1], prev[0]))
-        det.append('%s <- gamma1 in %s, gamma2 in %s%s' % (sl, yr, xr, ' (computed only for asymmetric pdfs; symmetric pdfs reuse the mirrored corner)' if mirrored else ''))
-        okc = okc and ok_
-    rep.ob('R-TPL', 'Cache2D.integrate corner terms', okc and len(corners) >= 3, '; '.join(det), m2.rel, f2.lineno, what='each corner spectrum is paired with the mass of the matching quadrant (index 0 <-> [min_gamma, inf), -1 <-> [0, max_gamma])')
-    have = set(corners)
+    # the exterior terms (four edges, four corners), for asymmetric and for symmetric pdfs: abstract execution of the function (one
+    # symbolic iteration of the loop over the grid); each term is read off the value that is returned, so the way the weights are
+    # collected (four arrays, a table of lists, one loop over the edges) is immaterial
+    ext = {sym: exterior_terms(prog, sym) for sym in (False, True)}
+    want_edges = {('full', 0): (2, 'low'), ('full', -1): (2, 'high'), (0, 'full'): (1, 'low'), (-1, 'full'): (1, 'high')}
+    bad_w, bad_e, bad_c = [], [], []
+    have = None
+    for sym, ex in ext.items():
+        tagw = 'symmetric pdf' if sym else 'asymmetric pdf'
+        for msg in ex['errors']:
+            bad_w.append('%s: %s' % (tagw, msg))
+        for key, wq in ex['edges'].items():
+            w = want_edges.get(key)
+            if w is None:
+                bad_e.append('%s: unexpected edge slice %s' % (tagw, (key,)))
+                continue
+            if wq is None:
+                bad_w.append('%s: the weight of edge %s is not a quadrature over one selection coefficient' % (tagw, (key,)))
+                continue
+            var, rng = wq
+            # the symmetric shortcut may use the mass over the other coefficient (equal by symmetry)
+            if not (rng == w[1] and (var == w[0] or sym)):
+                bad_e.append('%s: edge spectra[%s] weighted by the mass of gamma%d in the %s range (expected gamma%d %s)' % (tagw, ', '.join(':' if k == 'full' else str(k) for k in key), var, rng, w[0], w[1]))
+        if set(ex['edges']) != set(want_edges) and not ex['errors']:
+            bad_e.append('%s: edge terms %s' % (tagw, sorted(map(str, ex['edges']))))
+        for (i1, i2), cq in ex['corners'].items():
+            if cq is None:
+                bad_c.append('%s: the weight of corner (%d, %d) is not a double quadrature' % (tagw, i1, i2))
+                continue
+            r1, r2 = cq
+            e1, e2 = {0: 'low', -1: 'high'}.get(i1), {0: 'low', -1: 'high'}.get(i2)
+            if not ((r1, r2) == (e1, e2) or (sym and (r2, r1) == (e1, e2))):
+                bad_c.append('%s: corner spectra[%d, %d] weighted by the mass of gamma1 in the %s range, gamma2 in the %s range%s' % (
+                    tagw, i1, i2, r1, r2, ' (not the mirrored quadrant either)' if sym else ''))
+        hv = {'spectra[%d, %d]' % k for k in ex['corners']}
+        have = hv if have is None else (have & hv)
+    rep.ob('R-TPL', 'Cache2D.integrate edge weights', not bad_w, '; '.join(bad_w[:3]) if bad_w else 'every edge weight is quad over one selection coefficient with the other fixed at the grid value, over [min_gamma, inf) or [0, max_gamma]',
+           m2.rel, f2.lineno, what='w_1*: integral over gamma1 (first argument) at fixed gamma2; w_2*: integral over gamma2 (second argument) at fixed gamma1; low = [min_gamma, inf), high = [0, max_gamma]')
+    rep.ob('R-TPL', 'Cache2D.integrate edge terms', not bad_e and not bad_w, '; '.join(bad_e[:3]) if bad_e else 'spectra[:, 0] <-> gamma2 low, spectra[:, -1] <-> gamma2 high, spectra[0, :] <-> gamma1 low, spectra[-1, :] <-> gamma1 high',
+           m2.rel, f2.lineno, what='slice with gamma2 most deleterious (index 0) pairs with the gamma2 weight over [min_gamma, inf) etc. for all four edges')
+    rep.ob('R-TPL', 'Cache2D.integrate corner terms', not bad_c and len(have or ()) >= 3, '; '.join(bad_c[:3]) if bad_c else 'corner terms %s, each with the mass of its own quadrant (symmetric pdfs may reuse the mirrored one)' % sorted(have or ()),
+           m2.rel, f2.lineno, what='each corner spectrum is paired with the mass of the matching quadrant (index 0 <-> [min_gamma, inf), -1 <-> [0, max_gamma])')
+    have = set(have or ())
     need = {'spectra[-1, -1]', 'spectra[0, -1]', 'spectra[-1, 0]', 'spectra[0, 0]'}
     missing = sorted(need - have)
     rep.ob('R-EXH', 'Cache2D.integrate corner masses', not missing, 'corner terms present: %s; missing: %s' % (sorted(have), missing), m2.rel, f2.lineno,
